@@ -18,8 +18,8 @@ from .common import CACHE, REPO, VERIF, log
 
 NSLOTS = int(os.environ.get("VERIF_SLOTS", "4"))
 KANI_DIR = os.path.join(VERIF, "kani")
-JOBS = int(os.environ.get("VERIF_JOBS", "12"))
-MEM_KB = int(os.environ.get("VERIF_CBMC_MEM_KB", str(20 * 1024 * 1024)))
+JOBS = int(os.environ.get("VERIF_JOBS", "8"))
+MEM_KB = int(os.environ.get("VERIF_CBMC_MEM_KB", str(16 * 1024 * 1024)))
 
 
 class Harness:
@@ -176,7 +176,7 @@ def prepare_slot(slot, overlays, extra_files=None):
             hp = os.path.join(kdir, m + ".rs")
             wanted.add(hp)
             _write_if_changed(hp, hsrc)
-            tail += '#[cfg(kani)]\n#[path = "%s"]\nmod verif_%s;\n' % (hp, m)
+            tail += '#[cfg(kani)]\n#[path = "%s"]\npub(crate) mod verif_%s;\n' % (hp, m)
         _write_if_changed(os.path.join(slot.src, rel), body + tail)
     for fn in os.listdir(kdir):
         p = os.path.join(kdir, fn)
@@ -202,12 +202,30 @@ COMMON_MODS = {
     "heap_c33": ["heap_common"],
     "heap_c30": ["heap_common"],
     "heap_c20": ["heap_common"],
+    "arith_c01": ["arith_common"],
+    "arith_c02": ["arith_common"],
+    "arith_c04": ["arith_common"],
+    "arith_c05": ["arith_common"],
+    "heap_c30": ["heap_common"],
+}
+
+
+# helper modules that live in *other* source files: harness module -> [(src, mod)]
+EXTRA_OVERLAYS = {
+    "arith_c01": [("src/arena.rs", "arena_common")],
+    "arith_c02": [("src/arena.rs", "arena_common")],
+    "arith_c05": [("src/arena.rs", "arena_common")],
+    "arithf_c02": [("src/arena.rs", "arena_common")],
 }
 
 
 def full_overlays(harnesses):
     ov = {}
     for h in harnesses:
+        for src, mod in EXTRA_OVERLAYS.get(h.mod, []):
+            l2 = ov.setdefault(src, [])
+            if mod not in l2:
+                l2.append(mod)
         lst = ov.setdefault(h.src, [])
         for dep in COMMON_MODS.get(h.mod, []):
             if dep not in lst:
@@ -226,16 +244,17 @@ def kani_cmd(slot, harness_paths, timeout_s, extra=()):
     return args
 
 
-def run_cmd_in_slot(slot, args, logpath, wall_timeout, env_extra=None):
+def run_cmd_in_slot(slot, args, logpath, wall_timeout, env_extra=None, mem_kb=None):
     env = dict(os.environ)
     env["CARGO_NET_OFFLINE"] = "true"
     env.pop("RUSTUP_TOOLCHAIN", None)
     if env_extra:
         env.update(env_extra)
-    sh = "ulimit -s unlimited 2>/dev/null; ulimit -v %d; exec \"$@\"" % MEM_KB
+    sh = "ulimit -s unlimited 2>/dev/null; ulimit -v %d; exec \"$@\"" % (mem_kb or MEM_KB)
     with open(logpath, "w") as lf:
         p = subprocess.Popen(["bash", "-c", sh, "x"] + args, cwd=slot.src, stdout=lf,
                              stderr=subprocess.STDOUT, env=env, start_new_session=True)
+        _CHILDREN.add(p.pid)
         try:
             rc = p.wait(timeout=wall_timeout)
         except subprocess.TimeoutExpired:
@@ -245,7 +264,22 @@ def run_cmd_in_slot(slot, args, logpath, wall_timeout, env_extra=None):
                 pass
             p.wait()
             rc = -9
+        finally:
+            _CHILDREN.discard(p.pid)
     return rc
+
+
+_CHILDREN = set()
+
+
+def kill_children(*_a):
+    """signal handler: a killed check must not leave cargo-kani/cbmc process groups behind"""
+    for pid in list(_CHILDREN):
+        try:
+            os.killpg(pid, 9)
+        except OSError:
+            pass
+    os._exit(143)
 
 
 _RE_CHECKING = re.compile(r"^(?:Thread (\d+): )?Checking harness (\S+?)\.\.\.\s*$")
